@@ -473,7 +473,21 @@ class Normalizer:
         body = st.body[:-1]
         stored = {n.id for s_ in body for n in ast.walk(s_) if isinstance(n, ast.Name) and isinstance(n.ctx, (ast.Store, ast.Del))}
         bound_names = {n.id for n in ast.walk(r) if isinstance(n, ast.Name)}
-        if k in stored or (bound_names & stored) or any(isinstance(n, (ast.Break, ast.Continue, ast.Call)) and not isinstance(n, ast.Call) for s_ in body for n in ast.walk(s_)):
+        if k in stored or (bound_names & stored) or any(isinstance(n, (ast.Break, ast.Continue)) for s_ in body for n in ast.walk(s_)):
+            return None
+        # the bound is re-evaluated by `while` and evaluated once by `range`: nothing it reads may be mutated in the body
+        mutated = set()
+        for s_ in body:
+            for n in ast.walk(s_):
+                if isinstance(n, ast.Call) and isinstance(n.func, ast.Attribute) and isinstance(n.func.value, ast.Name):
+                    mutated.add(n.func.value.id)
+                if isinstance(n, (ast.Subscript, ast.Attribute)) and isinstance(n.ctx, (ast.Store, ast.Del)):
+                    b_ = n
+                    while isinstance(b_, (ast.Subscript, ast.Attribute)):
+                        b_ = b_.value
+                    if isinstance(b_, ast.Name):
+                        mutated.add(b_.id)
+        if bound_names & mutated:
             return None
         if any(isinstance(n, ast.Call) for n in ast.walk(r)) and not all(isinstance(n.func, ast.Name) and n.func.id == 'len' for n in ast.walk(r) if isinstance(n, ast.Call)):
             return None
